@@ -23,7 +23,7 @@ PROP_OF = [  # (regex on commit subject, property)
     (r"hypervolume", "C12"), (r"MedianStopper", "C16"), (r"MES acquisition|sort the active hyperparameter names|NumPy integer seeds", "C07"),
     (r"qUCB/qUCBd batches|all told results are ignored failures|already sampled is replaced", "C08"),
     (r"topk and boltzmann|DUMMY estimator|GradientBoostingQuantileRegressor|deterministic acquisition functions|lbfgs optimisation of the MES|GBRT|"
-     r"RegularizedEvolution draws another mutation|placeholder value of an inactive|boltzmann multi-point", "C02"),
+     r"RegularizedEvolution draws another mutation|placeholder value of an inactive|boltzmann multi-point|choices have different types", "C02"),
 ]
 
 
